@@ -277,6 +277,9 @@ def main(argv=None):
     for b in sorted(set(rep['bounded'])):
         if 'invariant' in b:
             lines.append('NOTE: %s bounded fallback: %s' % (prop, b[:200]))
+    for d_ in sorted(set(rep['ex'].dropped)):
+        if 'not modelled' in d_[2]:
+            lines.append('NOTE: %s %s:%d %s' % (prop, d_[0], d_[1], d_[2][:160]))
     for e in rep['structure_errors']:
         lines.append('STRUCTURE: %s %s' % (prop, e.split('\n')[0]))
     for v in vac:
